@@ -709,6 +709,11 @@ class CallMixin:
     lit = self.str_literal_of(nm)
     if lit is not None and len(pos) == 2:
       return self.load_attr(obj, lit, st, node)
+    cur = self.ctr_stack[-1] if getattr(self, 'ctr_stack', None) else self.ctr
+    if 'getattr' in cur.calls and len(pos) == 2 and all(z3.is_expr(p) for p in pos):
+      # attribute lookup with a computed name on an arbitrary object: the contract named by
+      # the caller (arbitrary user code: descriptors, __getattr__)
+      return self.call_named_contract(cur.calls['getattr'], pos, kw, st, node)
     # dynamic name: only Buildables are modelled
     out = []
     for st1, isstr in self.fork(st, is_VStr(name)):
@@ -915,6 +920,8 @@ class CallMixin:
       st2, r = st.alloc(type_cid(pos[0]))
       return [Res(st2, VRef(r))]
     m = getattr(self, 'me_' + name, None)
+    if m is None and name == 'split':
+      m = lambda *a, **k: self.unsupp('split on an object', node)
     if m is None:
       self.unsupp(f'method .{name}()', node)
     out = []
@@ -924,6 +931,15 @@ class CallMixin:
       else:
         if name in ('join', 'format') and self.feasible(st2, is_VStr(recv)):
           out.append(Res(st2, VStr(fresh('str', I))))
+        elif name == 'split' and not self.feasible_full(st2, z3.Not(is_VStr(recv))):
+          # str.split(sep): a fresh non-empty list of strings (contents opaque)
+          trusted('str.split(sep): a fresh non-empty list of str')
+          arr = fresh('split', ValArr)
+          n_ = fresh('split_n', I)
+          i_ = z3.Int('sp_i')
+          st3, l = self.new_list_from(st2.assume(n_ >= 1, SAFE_FORALL([i_], is_VStr(arr[i_]), patterns=[arr[i_]])),
+                                      n_, arr)
+          out.append(Res(st3, VRef(l)))
         else:
           out.append(self.exc_res(st2, 'AttributeError', origin=f'.{name}@{node.lineno}'))
     return out
